@@ -210,7 +210,7 @@ package ttlv
 // an Interval is a 32-bit unsigned number of seconds: a duration that is negative or does not fit is refused
 // (panic, the writer has no error result) instead of being written as another value
 //@ func (*ttlvWriter).Interval
-//@   requires enc != nil && int64(interval)%1000000000 == 0
+//@   requires enc != nil
 //@   maypanic interval < 0 || int64(interval)/1000000000 >= 1<<32
 //@   ensures 0 <= interval && int64(interval)/1000000000 < 1<<32
 //@   ensures is_cat(enc.buf, old(enc.buf), hdrseq(tag, 10, 4), be32seq(int64(interval)/1000000000), 0, 0, 0, 0)
